@@ -447,4 +447,34 @@ v("45c-setter-le-zero", [(P, "        if value < 0:\n", "        if value <= 0:\
 v("P-pool-size-fixed", [(P, "        return self._enough_room._value\n", "        return self._pool_size\n"),
    (P, "        self._enough_room._value = value\n", "        delta = value - getattr(self, '_pool_size', 0)\n        self._pool_size = value\n        self._enough_room._value += delta\n        self._enough_room._wake_up_next()\n")], {"C15": "any"})
 
+# ---------------------------------------------------------------- C20
+Q = "queue_context.py"
+v("56-aexit-only-on-success", [(Q, "        self.item_processed()\n", "        if exc_type is None:\n            self.item_processed()\n")], {"C20": "R20.2"})
+v("57-aexit-returns-true", [(Q, "        self.item_processed()\n", "        self.item_processed()\n        return True\n")], {"C20": "R20.2"})
+v("58-aenter-finally-marks", [(Q, "        return await self.get()\n", "        try:\n            return await self.get()\n        finally:\n            self.item_processed()\n")], {"C20": "R20.1"})
+v("59-task_done-twice", [(Q, "        self.task_done()\n", "        self.task_done()\n        self.task_done()\n")], {"C20": "viol"})
+v("59b-aexit-sleeps-first", [(Q, "        self.item_processed()\n", "        await self.join() if False else None\n        await self.put(None) if exc_type is KeyError else None\n        self.item_processed()\n")], {"C20": "R20.2"})
+v("59c-aenter-marks-on-cancel", [(Q, "        return await self.get()\n", "        try:\n            return await self.get()\n        except BaseException:\n            self.task_done()\n            raise\n")], {"C20": "R20.1"})
+v("59d-aexit-skips-on-cancellation", [(Q, "        self.item_processed()\n", "        from asyncio import CancelledError\n        if exc_type is not None and issubclass(exc_type, CancelledError):\n            return\n        self.item_processed()\n")], {"C20": "R20.2"})
+v("P16-aexit-try-finally", [(Q, "        self.item_processed()\n", "        try:\n            pass\n        finally:\n            self.item_processed()\n")], {"C20": "ok"})
+
+# ---------------------------------------------------------------- C19
+SV = "control/server.py"
+SE = "control/session.py"
+CLI = "control/client.py"
+v("53-final-callback-only-on-cancel", [(SV, "        except CancelledError:\n            log.debug(\"%s stopped\", self.__class__.__name__)\n        finally:\n            self._final_callback()\n", "        except CancelledError:\n            log.debug(\"%s stopped\", self.__class__.__name__)\n            self._final_callback()\n")], {"C19": "R19.2"})
+v("54-writer-close-removed", [(SV, "        try:\n            await session.client_handshake()\n            await session.listen()\n        finally:\n            writer.close()\n", "        await session.client_handshake()\n        await session.listen()\n")], {"C19": "R19.4"})
+v("54b-writer-close-only-on-success", [(SV, "        try:\n            await session.client_handshake()\n            await session.listen()\n        finally:\n            writer.close()\n", "        await session.client_handshake()\n        await session.listen()\n        writer.close()\n")], {"C19": "R19.4"})
+v("55-unlink-other-path", [(SV, "        self._socket_path.unlink()\n", "        Path(str(self._socket_path) + '.lock').unlink()\n")], {"C19": "R19.3"})
+v("55b-cancel-reraised", [(SV, "        except CancelledError:\n            log.debug(\"%s stopped\", self.__class__.__name__)\n", "        except CancelledError:\n            log.debug(\"%s stopped\", self.__class__.__name__)\n            raise\n")], {"C19": "R19.2"})
+v("55c-serve_forever-awaits-serving", [(SV, "        return create_task(self._serve_forever())\n", "        task = create_task(self._serve_forever())\n        await task\n        return task\n")], {"C19": "R19.1"})
+v("55d-listen-ignores-eof", [(SE, "            if not msg:\n                log.debug(\"%s disconnected\", self._client_class_name)\n                break\n", "            if not msg:\n                log.debug(\"%s disconnected\", self._client_class_name)\n                continue\n")], {"C19": "R19.5"})
+v("55e-listen-while-true", [(SE, "        while self._control_server.is_serving():\n", "        while True:\n")], {"C19": "R19.5"})
+v("55f-client-exit-keeps-connected", [(CLI, "            writer.close()\n            self._connected = False\n            return None\n", "            writer.close()\n            return None\n")], {"C19": "R19.6"})
+v("55g-unlink-only-if-serving", [(SV, "        self._socket_path.unlink()\n", "        if self.is_serving():\n            self._socket_path.unlink()\n")], {"C19": "R19.3"})
+v("55h-listen-before-handshake", [(SV, "            await session.client_handshake()\n            await session.listen()\n", "            await session.listen()\n")], {"C19": "R19.4"})
+v("P14-unlink-missing-ok", [(SV, "        self._socket_path.unlink()\n", "        self._socket_path.unlink(missing_ok=True)\n")], {"C19": "ok"})
+v("P-close-in-session", [(SV, "        try:\n            await session.client_handshake()\n            await session.listen()\n        finally:\n            writer.close()\n", "        try:\n            await session.client_handshake()\n            await session.listen()\n        finally:\n            session.close()\n"),
+   (SE, "    async def _parse_command(self, msg: str) -> None:\n", "    def close(self) -> None:\n        self._writer.close()\n\n    async def _parse_command(self, msg: str) -> None:\n")], {"C19": "ok"})
+
 VARIANTS = V
